@@ -4,7 +4,7 @@ depends only on eligible node names and address) and C10 (BGP announcement eligi
 spec/Election.tla      the definitions (views, L2Eligible, Winner, BGPEligible, C12 lemmas)
 spec/ElectionMC.tla    role A (design checks for every election order) + role B (TLC enumerates the
                        bounded product of views / duels / (base, perturbed) pairs as JSON inputs)
-harness/speaker        real speaker controllers of every node decide on every input
+harness/elect          real speaker controllers of every node decide on every input
 spec/ElectionTrace.tla role C: TLC evaluates the property predicates on the recorded decisions
 """
 import concurrent.futures
@@ -27,7 +27,7 @@ PLAN = {
             "thorough": [("lemma", "model"), ("duel", "gen"), ("pair_t", "gen"), ("l2flags_t3", "gen"), ("l2eps_t4", "gen")]},
     "C10": {"quick": [("bgpflags_q", "gen"), ("bgpeps9_q", "gen"), ("bgpeps3_q", "gen"), ("bgpepsm_q", "gen")],
             "thorough": [("bgpflags_t", "gen"), ("bgpeps9_q", "gen"), ("bgpeps3_q", "gen"), ("bgpepsm_q", "gen"),
-                         ("bgpeps3m_t", "gen"), ("bgpeps4_t", "gen")]},
+                         ("bgpeps3m_t", "gen"), ("bgpeps4_t", "gen"), ("bgpeps39_t", "gen")]},
 }
 E2E_SAMPLE = {"quick": 1500, "thorough": 6000}     # inputs also driven through the whole speaker controller
 BATCH = 150000                                      # inputs per harness run
@@ -54,7 +54,8 @@ ASSUME = {
 
 # --------------------------------------------------------------------------- role A + B
 
-def generate(chk, cfg, role):
+def generate(chk, cfg, role, seen):
+    """Inputs are kept as canonical JSON strings (a thorough run holds about a million of them)."""
     lines = set()
 
     def sink(o):
@@ -70,12 +71,19 @@ def generate(chk, cfg, role):
     if role == "gen" and not lines:
         raise vlib.Inconclusive("ElectionMC_%s produced no inputs: %s" % (cfg, res.out[-800:]))
     out = []
-    for n, l in enumerate(sorted(lines)):
-        o = json.loads(l)
-        o["id"] = "%s-%d" % (cfg, n)
-        out.append(o)
-    vlib.log("  ElectionMC_%s: %d states, %d distinct inputs, %.1fs" % (cfg, res.distinct, len(out), res.wall))
+    for l in sorted(lines):
+        h = hashlib.md5(l.encode()).digest()
+        if h in seen:
+            continue            # the same input already came out of another configuration of this run
+        seen.add(h)
+        out.append(l)
+    vlib.log("  ElectionMC_%s: %d states, %d distinct new inputs, %.1fs" % (cfg, res.distinct, len(out), res.wall))
     return out
+
+
+def with_id(line, ident, e2e):
+    """canonical input string -> input string carrying its id (and the whole-controller flag)"""
+    return '{"id":"%s",%s%s' % (ident, '"e2e":true,' if e2e else "", line[1:])
 
 
 # --------------------------------------------------------------------------- harness
@@ -85,8 +93,8 @@ def run_harness(chk, inputs, tag):
     obs = os.path.join(chk.work, "obs_%s.ndjson" % tag)
     with open(scen, "w") as fh:
         for o in inputs:
-            fh.write(json.dumps(o, separators=(",", ":")) + "\n")
-    ov = vlib.overlay_for(vlib.harness_mapping("speaker", "speaker"), chk.work)
+            fh.write((o if isinstance(o, str) else json.dumps(o, separators=(",", ":"))) + "\n")
+    ov = vlib.overlay_for(vlib.harness_mapping("elect", "speaker"), chk.work)
     rc, out = vlib.go_test("speaker", "^TestVerifElect$", ov,
                            {"VERIF_SCENARIOS": scen, "VERIF_OBS": obs, "VERIF_SEED": chk.seed})
     if rc != 0 or not os.path.exists(obs):
@@ -293,8 +301,9 @@ def run(chk):
     rnd = random.Random(chk.seed)
     duel_obs = []
     sigs = {}
-    gens = []
     seen = set()
+    total = 0
+    ngen = sum(1 for _, role in plan if role == "gen")
     for cfg, role in plan:
         if role == "model":
             res = vlib.tlc(chk.work, "ElectionMC", "ElectionMC_%s.cfg" % cfg, workers=8, timeout=1800, want_json=False)
@@ -306,20 +315,13 @@ def run(chk):
                 raise vlib.Inconclusive("TLC ElectionMC_%s: %s\n%s" % (cfg, res.error, res.out[-1500:]))
             vlib.log("  ElectionMC_%s (role A only): %d states, %.1fs" % (cfg, res.distinct, res.wall))
             continue
-        fresh = []
-        for o in generate(chk, cfg, role):
-            h = hashlib.md5(vlib.canon({k: v for k, v in o.items() if k != "id"}).encode()).digest()
-            if h not in seen:
-                seen.add(h)
-                fresh.append(o)
-        gens.append((cfg, fresh))
-    total = sum(len(x) for _, x in gens)
-    e2e_every = max(1, total // E2E_SAMPLE[chk.tier])
-    for cfg, inputs in gens:
+        lines = generate(chk, cfg, role, seen)
+        total += len(lines)
         # a seeded sample of the view inputs is also driven through the whole speaker controller
-        for o in inputs:
-            if o["kind"] in ("l2", "bgp") and rnd.randrange(e2e_every) == 0:
-                o["e2e"] = True
+        view_kind = not cfg.startswith(("duel", "pair"))
+        e2e_every = max(1, len(lines) * ngen // E2E_SAMPLE[chk.tier])
+        inputs = [with_id(l, "%s-%d" % (cfg, n), view_kind and rnd.randrange(e2e_every) == 0) for n, l in enumerate(lines)]
+        del lines
         if cfg == "duel":
             # the observed election order comes first; its observations precede every judged chunk
             duel_obs = run_harness(chk, inputs, "duel")
